@@ -889,7 +889,8 @@ pub fn gen_addr_items(r: &mut Rng, w: &World, p: &mut CPolicy, server_net: Optio
     }
     if r.chance(1, 3) || p.ad.is_empty() {
         // a subnet: the net itself or a smaller block inside
-        let l = if r.chance(1, 2) { net.1 } else { r.range(net.1.max(16) as u64, 30) as u8 };
+        // mostly a smaller block inside the net, so that the enclosing pool is not emptied
+        let l = if r.chance(1, 4) { net.1 } else { r.range((net.1 + 1).clamp(16, 30) as u64, 30) as u8 };
         let l = l.clamp(16, 30).max(net.1);
         let l = l.min(30);
         let inner = (r.next() as u32) & !mask(net.1) & mask(l);
